@@ -125,13 +125,20 @@ def generate(rng, tier):
             op["n"] = rng.choice([0, 1, 2, 3])
         if q == "derivative":
             op["a"] = rng.choice(ab["V"])
+        if q == "treesum":
+            op["kw"] = rng.choice([{}, {}, {"maxiter": 3}, {"tol": 0.2}, {"maxiter": 1}])
         if q == "transform":
             op["t"] = rng.choice(TRANSFORMS)
             op["args"] = [rng.randrange(4)]
         if q == "build_lm":
             op["lm"] = rng.choice(LMS)
         if faults["abort"] and rng.random() < 0.25:
-            op["abort"] = int(math.exp(rng.uniform(0, math.log(4000))))
+            # abort position: a fraction of the query's own length (measured at
+            # execution time in a forked copy), or an absolute small count
+            if rng.random() < 0.75:
+                op["abort"] = {"frac": round(rng.random(), 4)}
+            else:
+                op["abort"] = int(math.exp(rng.uniform(0, math.log(4000))))
         last_query = op
         ops.append(op)
 
@@ -299,7 +306,7 @@ def _do_query(kind, obj, op, tr, user_cfg):
         if q == "prefix_weight":
             return cfg.prefix_weight(ctx)
         if q == "treesum":
-            return cfg.treesum()
+            return cfg.treesum(**(op.get("kw") or {}))
         if q == "materialize":
             return cfg.materialize(op["n"])
         if q == "derivative":
@@ -452,6 +459,39 @@ class _Abort:
             sys.settrace(None)
 
 
+def _count_lines(fn):
+    """Length of a query in executed repository lines, measured in a forked
+    copy of this process (same scheduler state, so the same path); the copy's
+    side effects are discarded with it."""
+    import os
+
+    r, w = os.pipe()
+    pid = os.fork()
+    if pid == 0:
+        ab = _Abort(10 ** 15)
+        try:
+            ab.run(fn)
+        except BaseException:
+            pass
+        try:
+            os.write(w, str(ab.count).encode())
+        finally:
+            os._exit(0)
+    os.close(w)
+    data = b""
+    while True:
+        chunk = os.read(r, 64)
+        if not chunk:
+            break
+        data += chunk
+    os.close(r)
+    os.waitpid(pid, 0)
+    try:
+        return int(data)
+    except ValueError:
+        return -1
+
+
 def _show(res, mode):
     if isinstance(res, dict):
         return {str(k): _show(v, mode) for k, v in sorted(res.items(), key=lambda kv: ckey(kv[0]))}
@@ -498,7 +538,7 @@ def execute(sc):
 
     def reference(op):
         key = digest([op["q"], op["ctx"], op.get("ext"), op.get("n"), op.get("a"), op.get("t"),
-                      op.get("args"), op.get("lm")])
+                      op.get("args"), op.get("lm"), op.get("kw")])
         if key in ref_cache:
             return ref_cache[key]
         chaos.begin(0, epoch=False)
@@ -587,7 +627,15 @@ def execute(sc):
         chaos.begin(op.get("order_seed", 0) if sched.get("order_seed", 0) else 0, epoch=False)
         aborted = False
         if op.get("abort"):
-            ab_ = _Abort(int(op["abort"]))
+            spec = op["abort"]
+            if isinstance(spec, dict):
+                total = _count_lines(lambda: _do_query(kind, sut, op, tr, user_cfg))
+                n_abort = max(1, int(spec["frac"] * total)) if total > 0 else 1
+                out.probe("abort_positions_measured")
+            else:
+                n_abort = int(spec)
+            chaos.note_event(f"abort at line {n_abort}")
+            ab_ = _Abort(n_abort)
             try:
                 st, raw = ab_.run(lambda: _do_query(kind, sut, op, tr, user_cfg))
                 got = ("ok", _canon(raw, mode)) if st == "done" else None
@@ -611,6 +659,11 @@ def execute(sc):
                           op_index=i, before=short(repr(snap0), 300), after=short(repr(snap), 300))
             snap0 = snap
         if aborted:
+            continue
+        if op.get("kw"):
+            # a truncated / coarse fixed-point query (maxiter, tol): its own value
+            # legitimately depends on the pop order; it only serves as history
+            out.probe("coarse_queries_as_history")
             continue
         want = reference(op)
         out.evals += 1
